@@ -60,6 +60,8 @@ func writeMBTiles(path string, meta []metaRow, rows []mbRow) error {
 	if err := sqlitex.ExecScript(conn, "CREATE TABLE metadata (name text, value text); CREATE TABLE tiles (zoom_level integer, tile_column integer, tile_row integer, tile_data blob);"); err != nil {
 		return err
 	}
+	sqlitex.ExecScript(conn, "BEGIN;")
+	defer sqlitex.ExecScript(conn, "COMMIT;")
 	for _, m := range meta {
 		st := conn.Prep("INSERT INTO metadata (name, value) VALUES (?, ?)")
 		st.BindText(1, m.k)
@@ -210,9 +212,54 @@ func metaKVStr(meta []byte) string {
 	return s
 }
 
+// convert_root <seed> <n> <dedup>: a database of n png tiles whose single-level gzip directory lands between the root budget and the
+// first fetch (ids and lengths of nearBudgetList): the written header and root must still lie within the first 16384 bytes   -> ok
+func c06root(seed uint64, n int, dedup bool) (string, []string) {
+	es := nearBudgetList(seed, n)
+	rr := &rng{s: seed ^ 0x6666}
+	rows := make([]mbRow, n)
+	for i, e := range es {
+		z, x, y := pmtiles.IDToZxy(e.ID)
+		b := rr.bytes(int(e.Len))
+		if len(b) >= 4 { // distinct contents, so that deduplication does not change the directory
+			b[0], b[1], b[2], b[3] = byte(i), byte(i>>8), byte(i>>16), 0x77
+		}
+		rows[i] = mbRow{z, x, (uint32(1) << z) - 1 - y, b}
+	}
+	dir, _ := os.MkdirTemp("", "vh-c06r")
+	defer os.RemoveAll(dir)
+	in, out := filepath.Join(dir, "in.mbtiles"), filepath.Join(dir, "out.pmtiles")
+	if err := writeMBTiles(in, []metaRow{{k: "format", v: "png"}}, rows); err != nil {
+		return "harness", []string{"harness: " + err.Error()}
+	}
+	tmp, _ := os.CreateTemp(dir, "tmp")
+	defer tmp.Close()
+	restore := silence()
+	err := pmtiles.Convert(quietLogger, in, out, dedup, tmp)
+	restore()
+	if err != nil {
+		return "ok", []string{"convert failed: " + err.Error()}
+	}
+	f, _ := os.ReadFile(out)
+	h, got, rerr := specReadArchive(f)
+	var viol []string
+	if rerr != nil {
+		viol = append(viol, "converted archive unreadable: "+rerr.Error())
+	}
+	if h.RootOff+h.RootLen > 16384 {
+		viol = append(viol, fmt.Sprintf("header and root directory end at byte %d, beyond the first 16384 bytes (%d tiles)", h.RootOff+h.RootLen, n))
+	}
+	if rerr == nil && !dedup && len(got) != n {
+		viol = append(viol, fmt.Sprintf("written directories hold %d entries, expected %d", len(got), n))
+	}
+	return "ok", viol
+}
+
 func c06run(line string) (string, []string) {
 	t := newToks(line)
-	t.s()
+	if t.s() == "convert_root" {
+		return c06root(t.u(), t.n(), t.n() == 1)
+	}
 	dedup := t.n() == 1
 	nm := t.n()
 	meta := make([]metaRow, nm)
@@ -358,6 +405,20 @@ func formatKnown(v string) int {
 }
 
 func c06(r *rng, tier string, o *out) {
+	nroot := 2
+	if tier == "thorough" {
+		nroot = 16
+	}
+	for c := 0; c < nroot; c++ {
+		seed := r.next()
+		line := fmt.Sprintf("convert_root %d %d %d", seed, nearBudgetN(seed), c%2)
+		impl, viol := runCase("C06", line)
+		idx := o.emit(line, impl, true)
+		o.count("convert_root_near_budget")
+		for _, v := range viol {
+			o.violation(idx, v)
+		}
+	}
 	n := 120
 	if tier == "thorough" {
 		n = 3000
